@@ -14,14 +14,18 @@ pub const SYMBOLS: &[&str] = &[";", "{", "}", ":", "=", "(", ")", "->", "<", ">"
 const IDENTS: &[&str] = &[
     "a", "b", "c", "x", "y", "foo", "bar", "baz", "my-inst", "foo-bar", "x1", "FOO", "foo123-BAR", "f-b", "item", "i",
     "w", "run", "get-x", "t0", "A-b-C9", "%type", "%interface", "%use", "%as", "%new", "%foo", "%x-y", "%string", "%result",
+    "%record", "%import", "%export", "%let", "%with", "%include", "%static", "%constructor", "%u8", "%borrow", "%targets",
+    "%package", "%world", "%func", "%enum", "%flags", "%variant", "%resource", "%tuple", "%list", "%option", "%char", "%bool",
+    "types", "imports", "letter", "user", "asx", "u8x", "new-thing", "a1-b2-c3", "X", "X9-Y", "%A-b",
 ];
 const STRINGS: &[&str] = &[
     "\"foo\"", "\"\"", "\"a:b/c\"", "\"foo bar\"", "\"\u{e9}\u{4e16}\"", "\"x\ny\"", "\"//\"", "\"/* */\"", "\"a:b/c@1.0.0\"",
-    "\"%\"", "\"\\\"",
+    "\"%\"", "\"\\\"", "\"b-name\"", "\"wasi:http/types@0.2.0\"", "\"\u{a0}\u{200b}\"", "\"/// not a doc\"", "\"'\"",
 ];
 const PKG_NAMES: &[&str] = &[
     "a:b", "foo:bar", "test:comp", "foo:bar:baz", "a:b@1.0.0", "foo:bar@0.1.0-rc.1+build.5", "%a:b", "a:%b-c", "x:y@10.20.30",
-    "n:m@1.2.3----RC-SNAPSHOT.12.9.1--.12+788", "a:b@0.0.0", "UP:low", "a:b@18446744073709551615.0.0",
+    "n:m@1.2.3----RC-SNAPSHOT.12.9.1--.12+788", "a:b@0.0.0", "UP:low", "a:b@18446744073709551615.0.0", "foo:bar@1.2.3",
+    "foo:bar:baz@1.2.3-rc.1+build.5", "a-b:c-d", "%type:%use", "a:b:c:d:e", "a:b@1.0.0+0.build.1-rc.10000aaa-kk-0.1",
 ];
 const BAD_PKG_NAMES: &[&str] = &[
     "a:b@1", "a:b@1.0", "a:b@01.0.0", "a:b@1.2.3-01", "a:b@1.0.0.0", "a:b@1.2.3-", "a:b@1.2.3+", "a:b@1.2.3-a..b",
@@ -29,7 +33,8 @@ const BAD_PKG_NAMES: &[&str] = &[
 ];
 const PKG_PATHS: &[&str] = &[
     "a:b/c", "foo:bar/baz", "foo:bar/baz/qux", "a:b/c@1.0.0", "foo:bar:baz/q@2.0.0-beta", "a:b/%c", "wasi:http/types@0.2.0",
-    "a:b/c/d/e@0.1.0+meta", "x:y/z@1.1.2-prerelease+meta",
+    "a:b/c/d/e@0.1.0+meta", "x:y/z@1.1.2-prerelease+meta", "foo:bar:baz/qux/jam@1.2.3-rc.1+build.5", "%a:%b/%c", "A:B/C",
+    "a-b:c-d/e-f/g-h", "wasi:cli/command@0.2.0", "a:b/c@0.0.0-0", "a:b/c@1.0.0-alpha.beta.1", "foo:bar/baz@1.0.0-0A.is.legal",
 ];
 const BAD_PKG_PATHS: &[&str] = &["a:b/c@1", "a:b/c@1.0", "a:b/c@1.00.0", "a:b/c@1.0.0-00", "a:b/c@0.0.00"];
 
@@ -89,7 +94,7 @@ impl<'r> Gen<'r> {
         }
     }
     pub fn ty(&mut self, depth: usize) {
-        let k = if depth == 0 { self.r.below(14) } else { self.r.below(22) };
+        let k = if depth == 0 || self.r.chance(2, 5) { self.r.below(14) } else { 14 + self.r.below(5) };
         match k {
             0..=12 => {
                 let p = ["u8", "s8", "u16", "s16", "u32", "s32", "u64", "s64", "f32", "f64", "char", "bool", "string"][k];
@@ -188,7 +193,7 @@ impl<'r> Gen<'r> {
         }
     }
     fn type_decl(&mut self, allow_resource: bool) {
-        let k = self.r.below(if allow_resource { 6 } else { 5 });
+        let k = if allow_resource && self.r.chance(1, 3) { 5 } else { self.r.below(5) };
         match k {
             0 => {
                 self.hit("decl:variant");
@@ -249,7 +254,7 @@ impl<'r> Gen<'r> {
                     self.t(";");
                 } else {
                     self.t("{");
-                    let n = self.r.below(4);
+                    let n = self.r.below(5);
                     for _ in 0..n {
                         if self.r.chance(1, 3) {
                             self.t("constructor");
@@ -294,9 +299,9 @@ impl<'r> Gen<'r> {
     fn interface_items(&mut self, max: usize) {
         let n = self.r.below(max + 1);
         for _ in 0..n {
-            match self.r.below(4) {
+            match self.r.below(5) {
                 0 => self.use_item(),
-                1 => self.type_decl(true),
+                1 | 2 => self.type_decl(true),
                 _ => {
                     self.hit("item:export-func");
                     self.id();
@@ -576,7 +581,7 @@ const DOC_TEXTS: &[&str] = &["doc", "Doc comment #1!", "a  b", "", " ", "x */ y"
 
 /// white space / comments between two tokens
 pub fn separator(r: &mut Rng, left: &str, right: &str) -> String {
-    let k = r.below(100);
+    let k = r.below(108);
     let s: String = match k {
         0..=49 => " ".into(),
         50..=64 => "".into(),
@@ -602,7 +607,15 @@ pub fn separator(r: &mut Rng, left: &str, right: &str) -> String {
         96 => "/***/".into(),
         97 => "\n/// first\n/// second\n".into(),
         98 => "\n/** multi\n  line\n\n  doc */ ".into(),
-        _ => " /* /* */ // */ ".into(),
+        _ => {
+            let v: &[&str] = &[
+                " /* /* */ // */ ", "/* /* a */*/", "/*/ */", "/* * / */ ", "/*/**/*/", "/* \u{e9}\u{4e16} */", "/*\n*/", " //\r\n", " // \u{e9}\n",
+                "\n/**\n * line one\n * line two\n */\n", "\n    /** indented\n        doc\n     */\n    ", "\n///\n", "\n/// \n", "\n////\n", "\n/// a\r\n/// b\r\n",
+                "\n/** a\n\n b */\n", "\n/***/\n", "\n/** */\n", "\n/**x*/", "\n///x\n", "\n/// \u{a0}pad\u{a0} \n", "\n/** /* nested */ doc */\n", "\t\t", "\n\n\n",
+                "\n/// tab\there\n", "\n/** \r\n crlf \r\n */\n",
+            ];
+            v[r.below(v.len())].to_string()
+        }
     };
     if s.is_empty() && !safe_glue(left, right) {
         " ".into()
@@ -720,3 +733,12 @@ pub fn wac_files(dir: &str) -> Vec<std::path::PathBuf> {
     out.sort();
     out
 }
+
+
+/// documents that use every production of the grammar (tokens separated by single blanks, no blank
+/// inside a string), so that every single-token mutant of every production is exercised on every run
+pub const SHOWCASE: &[&str] = &[
+    "package foo:bar:baz@1.2.3-rc.1+build.5 targets wasi:cli/command@0.2.0 ; import a : foo:bar:baz/qux/jam@1.2.3-rc.1+build.5 ; import b as \"b-name\" : func ( x : u8 , y : list < string > , ) -> result < tuple < u8 , s64 > , borrow < r > > ; import c as %type : interface { use t . { a as %record , b , } ; use foo:bar/baz@1.0.0 . { z } ; resource r { constructor ( a : u8 , ) ; m : func ( ) ; s : static func ( x : borrow < r > ) -> option < r > ; } f : func ( ) ; g : h ; type t2 = func ( ) -> u8 ; } ; import d : e ;",
+    "package a:b ; interface i { variant v { a , b ( u8 ) , } record r { f : u8 , g : tuple < u8 , > } flags fl { x , y , } enum en { p , q } type al = result ; type a2 = result < _ , string > ; type a3 = result < u8 > ; type a4 = result < u8 , string > ; type a5 = result < _ > ; type a6 = result < u8 , _ > ; resource res ; resource res2 { } } world w { import i ; import n : func ( ) ; import m : interface { } ; export foo:bar/baz ; export o : t ; include x ; include foo:bar/w@1.0.0 with { a as b , c as d , } ; include y with { } ; use i . { r } ; use j . { } ; type t = u8 ; } variant tv { a } record tr { a : u8 } flags tf { a } enum te { a } type tt = char ; type tf2 = func ( a : bool , b : f32 , c : f64 , d : s8 , e : s16 , f : s32 , g : u16 , h : u32 , i : u64 ) ;",
+    "package a:b ; let a = new foo:bar@1.2.3 { } ; let b = new foo:bar { ... } ; let c = new foo:bar { x , ... y , \"s\" : z , n : ( new a:b { ... } ) . e [ \"f\" ] , ... , } ; let d = ( ( c ) ) . x . y [ \"z\" ] ; export a ; export b ... ; export c as \"name\" ; export d . e as %export ; export new a:b { ... , x } ;",
+];
